@@ -367,6 +367,8 @@ def run(repo, tier):
     r.assumptions = ["scheme(k, N) returns d with 0 <= d <= N", "coefficient lists are Python lists (slicing semantics)"]
     r.rule("R16.1", "every returning path of an evaluator consumes each coefficient index exactly once", floor=20)
     r.rule("R16.2", "the duplicated implementations (polynomial.py / floating_point_algorithms.py) consume coefficients identically", floor=2)
+    r.rule("R16.4", "a running power/accumulator updated in a loop (`v *= w`) is updated on every path through the loop body", floor=1)
+    r.rule("R16.5", "polynomial division shifts the divisor by the degree of the current remainder, not by an iteration counter", floor=1)
     r.rule("R16.3", "exponent bookkeeping: fast_exponent_by_squaring returns x**n; the high part of a split is multiplied by x**d", floor=6)
 
     signatures = {}
@@ -470,6 +472,57 @@ def run(repo, tier):
             ok = any(h == f"coeffs[{pw}:]" for h in his) and any(l == f"coeffs[:{pw}]" for l in los)
             detail = f"high part {his}, low part {los}, power x**{pw}: P = A*x**d + B needs A from coeffs[d:], B from coeffs[:d] and the same d"
         r.ob("R16.3", f"{rel}::fast_polynomial split recombination", ok, detail, loc(rel, g))
+    # ---- R16.4 running powers: `z0e *= z0` must not be skipped by a `continue` / conditional
+    n_acc = 0
+    for rel in ("polynomial.py",):
+        for f in [n for n in ast.walk(repo.tree(rel)) if isinstance(n, ast.FunctionDef)]:
+            for lp in [n for n in ast.walk(f) if isinstance(n, (ast.For, ast.While))]:
+                accs = [st for st in lp.body if isinstance(st, ast.AugAssign) and isinstance(st.op, ast.Mult) and isinstance(st.target, ast.Name)]
+                for acc in accs:
+                    # the accumulator is a running power only if it is also read in the loop body
+                    reads = [n for st in lp.body for n in ast.walk(st) if isinstance(n, ast.Name) and n.id == acc.target.id and isinstance(n.ctx, ast.Load)]
+                    if not reads:
+                        continue
+                    n_acc += 1
+                    idx = lp.body.index(acc)
+                    skipping = []
+                    for st in lp.body[:idx]:
+                        for n in ast.walk(st):
+                            if isinstance(n, (ast.Continue, ast.Break)):
+                                skipping.append(n)
+                    r.ob("R16.4", f"{rel}::{f.name} running accumulator `{norm_src(acc)}`", not skipping,
+                         f"`{norm_src(acc)}` keeps {acc.target.id} in step with the loop index, but a `continue`/`break` at line "
+                         f"{skipping[0].lineno if skipping else '?'} leaves the loop body before it: after a skipped iteration every later term uses a stale power",
+                         loc(rel, acc))
+    if n_acc == 0:
+        raise AnalysisError("R16.4: no running accumulator found (taylorat's `z0e *= z0` vanished)")
+
+    # ---- R16.5 divmod alignment
+    dm = repo.func("polynomial.py", "divmod")
+    loops = [n for n in dm.body if isinstance(n, (ast.For, ast.While))]
+    if not loops:
+        raise AnalysisError("polynomial.divmod: division loop not found")
+    lp = loops[-1] if isinstance(loops[-1], ast.While) and "pop" in norm_src(loops[-1]) and len(loops) > 1 else loops[0]
+    for cand in loops:
+        if any((call_name(c) or "") == "multiply" for c in calls_in(cand)):
+            lp = cand
+    muls = [c for c in calls_in(lp) if (call_name(c) or "") == "multiply"]
+    if not muls:
+        raise AnalysisError("polynomial.divmod: `multiply(-t, <shifted divisor>)` not found in the loop")
+    shifted = muls[0].args[1]
+    # names the shift depends on
+    shift_names = {n.id for n in ast.walk(shifted) if isinstance(n, ast.Name)} - {"D"}
+    derived_from_R = False
+    for st in lp.body:
+        if isinstance(st, ast.Assign) and isinstance(st.targets[0], ast.Name) and st.targets[0].id in shift_names:
+            if "len(R)" in norm_src(st.value):
+                derived_from_R = True
+    counter = isinstance(lp, ast.For) and isinstance(lp.target, ast.Name) and lp.target.id in shift_names
+    variable_shrink = any(isinstance(n, ast.While) and "pop" in norm_src(n) for n in lp.body)
+    ok = derived_from_R or not (counter and variable_shrink)
+    r.ob("R16.5", "polynomial.py::divmod divisor alignment", ok,
+         f"the divisor is shifted by `{norm_src(shifted)}` using the loop counter while the remainder is shortened by a data-dependent number of "
+         "terms per step (`while R and R[-1] == 0: R.pop()`): with zero coefficients the two get out of step and P != Q*D + R or deg R >= deg D", loc("polynomial.py", lp))
     return r
 
 
